@@ -44,8 +44,8 @@ def import_pams():
     return pams
 
 
-NOPX = -1      # PamsOrder!NoPx: Python's None for a price (0 is a legitimate accepted price: a bid below one tick)
-BADPX = -2     # a value that cannot be projected to the unit grid (soft projection)
+NOPX = -(2 ** 30)      # PamsOrder!NoPx: Python's None for a price (0 and negative prices are prices: Order only warns about them)
+BADPX = -(2 ** 30) - 1   # a value that cannot be projected to the unit grid (soft projection)
 
 
 class Units:
@@ -58,11 +58,16 @@ class Units:
                  of prices are all that matter for the book logic).
     """
 
-    def __init__(self, tick, den, exact):
+    def __init__(self, tick, den, exact, base=0.0):
         self.tick = tick
         self.den = den
         self.exact = exact
         self.unit = tick / den
+        # prices far from zero on a fine grid (price / tick beyond 2^30): units are counted from `base`, a multiple of the tick
+        self.base = base
+        self.base_units = int(round(base / self.unit))
+        if self.base_units * self.unit != base or self.base_units % den != 0:
+            raise MachineryError("base %r is not a multiple of the tick %r" % (base, tick))
 
     def u(self, x, soft=False):
         if x is None:
@@ -76,6 +81,7 @@ class Units:
             ok = (k * self.unit == x)
         else:
             ok = abs(x / self.unit - k) < 1e-6
+        k -= self.base_units
         if not ok or abs(k) >= 2 ** 30:
             if soft:
                 return None
@@ -84,7 +90,18 @@ class Units:
 
     def f(self, k):
         """units -> float price"""
-        return k * self.unit
+        return (k + self.base_units) * self.unit
+
+    def total(self, x, volume, soft=False):
+        """a turnover (sum of price x volume over `volume` shares) in units x shares, counted from base like the prices"""
+        if not self.base_units:
+            return self.u(x, soft=soft)
+        k = round(x / self.unit)
+        if k * self.unit != x or abs(k - self.base_units * volume) >= 2 ** 30:
+            if soft:
+                return None
+            raise MachineryError("turnover %r is not projectable" % (x,))
+        return int(k - self.base_units * volume)
 
 
 def dumps(obj):
